@@ -1,0 +1,15 @@
+//go:build verif
+
+package security
+
+// VerifCommandMap returns a copy of the cache's command map (rendered command key -> session id),
+// so a check can read the routes without parsing the human-readable DebugDump text.
+func VerifCommandMap(c *SessionCache) map[string]string {
+	c.mu.RLock()
+	defer c.mu.RUnlock()
+	out := make(map[string]string, len(c.commandMap))
+	for k, v := range c.commandMap {
+		out[k] = v
+	}
+	return out
+}
